@@ -123,10 +123,13 @@ CLAIMS['C08'] = dict(
 CLAIMS['C14'] = dict(
     text='PARTIAL: unbounded proof that (1) get_scope_for_token returns the name attached to the last function-map entry at or before (original line + 1, original column) '
          '(GLB contract over (u64 line, column) keys), nothing without a function map or before all entries, and nothing for an out-of-range name index; (2) the function-map '
-         'decoder inside decode_hermes (the closure body, outlined) computes the independent reading of Metro\'s format (spec/hermes_decode.rs: groups by \';\', segments by '
-         '\',\', column relative within a group, name index and line relative across the string, line starting at 1 and advanced only by the third value, omitted values = 0): '
-         'Some(entries) exactly as the reference reads them, None exactly when a segment is not valid VLQ. The wrapper (first scope mapping of each non-null entry, collect, '
-         'decode_regular of the rest, raw metadata kept for re-encoding) is bounded only; (3) SourceMapHermes::get_original_function_name(offset) is the scope lookup of the token that C04 says (0, offset) resolves to, nothing when no token lies at or before it.',
+         'reader inside decode_hermes (the whole closure, lifted to a function of the metadata entry and the shared scratch vector, R-lift) gives, for a non-null non-empty entry, '
+         'the names of its first scope mapping and the independent reading of Metro\'s format of its mappings (spec/hermes_decode.rs: groups by \';\', segments by '
+         '\',\', column relative within a group, name index and line relative across the string, line starting at 1 and advanced only by the third value, omitted values = 0), '
+         'None exactly when the entry is null / empty or a segment is not valid VLQ, whatever the scratch vector held on entry; decode_hermes around it (map + collect written as '
+         'the loop of pushes, R-map-collect) refuses a document without the key, builds one function map per entry in order, each from its own entry only, keeps the raw metadata for '
+         're-encoding, and fails exactly when decode_regular of the rest fails (decode_regular itself: u4 / u10); '
+         '(3) SourceMapHermes::get_original_function_name(offset) is the scope lookup of the token that C04 says (0, offset) resolves to, nothing when no token lies at or before it.',
     note=_TB + 'function maps are required ordered by (line, column), as Metro emits them. Values leaving the u32 range are outside the domain (Unfit).',
     design_ref='DESIGN.md 5 C14')
 
@@ -251,9 +254,9 @@ NOT_COVERED = {
     'C05': ['dependencies (serde_json, url, bitvec, data-encoding, base64-simd, debugid)', 'sourceview.rs, js_identifiers.rs, detector.rs line scan, Display/Debug impls, ram_bundle.rs',
             'flatten (+ off_col / + off_line overflow, design-phase defect D6), rewrite, adjust_mappings, range bitfield writer (D4), decode_hermes', 'allocation in proportion to the input; wall-clock (only termination is proved)'],
     'C08': ['the agreement theorems quantify over index maps whose sections are as the property describes them at every level of nesting (offsets strictly increasing, distinct generated positions inside a section, every moved token before the next offset); other index maps: bounded stand-ins index_flatten / index_nested', 'the hypotheses of the agreement lemma are the postconditions of executed functions; no concrete witness is constructed inside Verus (Vec values cannot be built in spec code), the stand-ins index_flatten / index_nested run the real functions on such inputs'],
-    'C14': ['decode_hermes wrapper around the function-map decoder (destructuring of the first scope mapping, collect, decode_regular): bounded stand-in hermes_scope', 'DecodedMap::get_original_function_name dispatch (line != 0 => nothing for Hermes maps): bounded', 'stability under serialise/decode: the writer half is proved (SourceMapHermes::as_raw_sourcemap writes x_facebook_sources verbatim, u22); that decode_hermes keeps the raw metadata is bounded'],
-    'C01': ['the serde_json layer (writer and reader of the JSON text, serde attributes): bounded stand-in roundtrip', 'the one closure of as_raw_sourcemap that collects the contents (captures a mutable local): behind an assumed contract', 'decode_hermes (wrapper)'],
-    'C02': ['the six `let` lines of decode_regular that unpack the raw document (checked textually, not verified)', 'termination of the decode_index / decode_common recursion (bounded by serde_json)', 'decode_hermes'],
+    'C14': ['DecodedMap::get_original_function_name dispatch (line != 0 => nothing for Hermes maps): bounded', 'stability under serialise/decode: both halves are proved over the raw document (SourceMapHermes::as_raw_sourcemap writes x_facebook_sources verbatim, u22; decode_hermes keeps it and reads the function maps from it, u16); that serde carries x_facebook_sources through the JSON text is bounded (hermes_scope)'],
+    'C01': ['the serde_json layer (writer and reader of the JSON text, serde attributes): bounded stand-in roundtrip', 'the one closure of as_raw_sourcemap that collects the contents (captures a mutable local): behind an assumed contract'],
+    'C02': ['the six `let` lines of decode_regular that unpack the raw document (checked textually, not verified)', 'termination of the decode_index / decode_common recursion (bounded by serde_json)'],
     'C03': ['the serde skip_serializing_if attributes (that a None field writes no key): bounded stand-in raw_keys', 'the one closure of as_raw_sourcemap that collects the contents (captures a mutable local): behind an assumed contract'],
     'C07': ['decode_regular handing the two strings to the loop (the six `let` lines) and the serde layer: bounded stand-in rmi_roundtrip; the writer side (as_raw_sourcemap puts the reference rangeMappings value under its key, none without a range token) and the token-level round trip with flags are proved'],
     'C11': ['values of magnitude >= 2^62 (13-digit overflows) are only proved panic-free'],
